@@ -83,12 +83,14 @@ func takeCensus() census {
 		isHarnessCall := false
 		outerLib := ""
 		for _, f := range frames { // innermost first
-			if strings.HasPrefix(f, "main.") {
-				isHarnessCall = true
-			}
 			if strings.HasPrefix(f, libPrefix) {
 				outerLib = f
 			}
+		}
+		// a goroutine of the harness that is inside a library call (its entry function is the harness'); a library goroutine
+		// that is inside a callback of the harness (a tool handler) is the library's
+		if n := len(frames); n > 0 && strings.HasPrefix(frames[n-1], "main.") {
+			isHarnessCall = true
 		}
 		if containsFrame(frames, "net/http.(*persistConn).readLoop") {
 			c.Persist++
